@@ -140,6 +140,25 @@ def install(R):
     fnl = z3.Function("ext:xyzpy/gen/combo_runner.py:nan_like_result/1", V, V)
     R.axioms.append(("placeholder_is_not_the_private_sentinel", z3.ForAll([xs_], fnl(xs_) != z3.Const("xyzpy/gen/cropping.py:NO_DEFAULT", V), patterns=[fnl(xs_)])))
 
+    def saved_constants_dict(eng, fr, loc):
+        g = (fr.old if fr.old is not None else fr.st).ghost
+        ct = z3.Select(g["FS_ct"].t, S["InfoPath"](eng, fr, loc).t)
+        key = T.VStr(z3.StringVal("constants"))
+        c = T.mat(ct, key)
+        return mk_bool(z3.Implies(T.mhas(ct, key), z3.Or(T.is_VNone(c), z3.And(T.is_VObj(c), T.tag(c) == T.TAG["dict"]))))
+    S["SavedConstantsAreADict"] = saved_constants_dict
+
+    def label_constants(eng, fr, passed, given, saved):
+        """passed == given when nothing was saved with the sowing; otherwise the saved constants over the given ones, key by key"""
+        pv, gv, sv = eng.as_V(passed), eng.as_V(given), eng.as_V(saved)
+        k = z3.Const(fresh_name("k"), V)
+        has_s = T.mhas(sv, k)
+        has_g = z3.And(z3.Not(T.is_VNone(gv)), T.mhas(gv, k))
+        merged = z3.ForAll([k], z3.And(T.mhas(pv, k) == z3.Or(has_s, has_g),
+                                       z3.Implies(T.mhas(pv, k), T.mat(pv, k) == z3.If(has_s, T.mat(sv, k), T.mat(gv, k)))))
+        return mk_bool(z3.If(T.truthy(sv), merged, pv == gv))
+    S["LabelConstants"] = label_constants
+
     def first_item_of_some_result(eng, fr, loc, v):
         """v is the first element of the content of a visible result file (id >= 1) of the crop"""
         b = z3.Int(fresh_name("b"))
@@ -358,7 +377,7 @@ def install3(R):
     rc.raises = {"AnyError": dict(ensures=["crop_files_unchanged(self.location)"])}
 
     R.add(K + "Crop.reap_combos_to_ds", cls="Crop", result="V", props=["C12", "C09", "C06"],
-          prop_map={"runner_args": ["C04", "C06", "C09"], "labelling_forwarded": ["C06", "C04"]},
+          prop_map={"runner_args": ["C04", "C06", "C09"], "labelling_forwarded": ["C06", "C04"], "constants_as_in_a_direct_run": ["C06", "C04"]},
           hooks={"skip_call_pre": ("combo_runner_to_ds",)},
           notes="the labelling preconditions of combo_runner_to_ds (normal-form description) are the caller's: reap_runner passes a Runner's "
                 "stored description with parse=False; with parse=True the inputs go through parse_*",
@@ -380,8 +399,11 @@ def install3(R):
                                       "and call_arg('combo_runner_to_ds', 'var_coords') == var_coords "
                                       "and call_arg('combo_runner_to_ds', 'to_df') == to_df "
                                       "and call_arg('combo_runner_to_ds', 'parse') == parse "
-                                      "and implies(not truthy(parse), call_arg('combo_runner_to_ds', 'constants') == constants "
-                                      "and call_arg('combo_runner_to_ds', 'attrs') == attrs)"),
+                                      "and implies(not truthy(parse), call_arg('combo_runner_to_ds', 'attrs') == attrs)"),
+              # what a direct run records: the constants given with the sweep (saved when sowing) over the description's own
+              ("constants_as_in_a_direct_run",
+               "implies(not truthy(parse) and (constants is None or is_dict(constants)) and SavedConstantsAreADict(self.location), LabelConstants(call_arg('combo_runner_to_ds', 'constants'), constants, "
+               "mat(old(fs_content(InfoPath(self.location))), 'constants') if mhas(old(fs_content(InfoPath(self.location))), 'constants') else None))"),
               ("reaper_args", "call_arg('Reaper.__init__', 'num_batches') == mat(old(fs_content(InfoPath(self.location))), 'num_batches') "
                               "and call_arg('Reaper.__init__', 'crop') == self and call_arg('Reaper.__init__', 'wait') == wait "
                               "and (call_arg('Reaper.__init__', 'default_result') is not NO_DEFAULT) == truthy(allow_incomplete)"),
